@@ -3,9 +3,31 @@
 #include "cmd_parse.h"
 #include "common.h"
 
+#include <memory>
+
+#include "guard.h"
+
+// serv: every string VALUE of the parsed document is replaced by a zero-copy view (SetString(ptr, len), no allocator) of the same bytes
+// placed so that they end `gap` bytes in front of an unmapped page - the way a caller hands over strings that live in a mapped file
+template <typename N>
+static void relocate_strings(N& n, size_t gap, std::vector<std::unique_ptr<GuardBlock>>& keep) {
+  if (n.IsString()) {
+    auto sv = n.GetStringView();
+    keep.emplace_back(new GuardBlock(sv.size() + gap));
+    memcpy(keep.back()->p, sv.data(), sv.size());
+    memset(keep.back()->p + sv.size(), '"', gap);
+    n.SetString((const char*)keep.back()->p, sv.size());
+  } else if (n.IsArray()) {
+    for (auto it = n.Begin(); it != n.End(); ++it) relocate_strings(*it, gap, keep);
+  } else if (n.IsObject()) {
+    for (auto it = n.MemberBegin(); it != n.MemberEnd(); ++it) relocate_strings(it->value, gap, keep);
+  }
+}
+
 static void cmd_ser(const std::vector<std::string>& t, std::string& out) {
   uint64_t cap0, nre;
   std::string json;
+  bool view = t[0] == "serv";
   if (t.size() != 4 || !parse_u64(t[1], cap0) || !parse_u64(t[2], nre) || !unhex(t[3], json) || cap0 > (1 << 20) || nre > 8) {
     out = "bad-op";
     return;
@@ -15,6 +37,12 @@ static void cmd_ser(const std::vector<std::string>& t, std::string& out) {
   if (d.HasParseError()) {
     out = "bad-input";
     return;
+  }
+  std::vector<std::unique_ptr<GuardBlock>> keep;
+  if (view) {
+    // serv <gap> <nreuse> <hex json>: the first number is the distance of the strings' ends from the unmapped page; fresh buffer
+    relocate_strings(d, (size_t)cap0 % 4096, keep);
+    cap0 = 256;
   }
   sonic_json::WriteBuffer wb(cap0);
   sonic_json::SonicError err = sonic_json::kErrorNone;
